@@ -3,7 +3,7 @@ import json, re
 from pcv import core, capio, setbuild, textgen
 
 P = "PcVerif.Props.C07."
-THEOREMS = [P + t for t in ["default_ids_pinned", "region_ids_distinct", "region_refs_resolve", "regions_all_referenced", "escape_content_wf"]]
+THEOREMS = [P + t for t in ["default_ids_pinned", "region_ids_distinct", "region_refs_resolve", "regions_all_referenced", "escape_content_wf", "nextFree_free", "fresh_ids_spec", "default_region_id_free", "region_map_ids"]]
 XMLNS = "{http://www.w3.org/XML/1998/namespace}"
 TT = "{http://www.w3.org/ns/ttml}"
 NASTY = ["a&b", "x<y", 'say "hi"', "it's", "1>0", "&amp;", "<b>", "]]>", "ok", "plain", "é", "#ff0000", "white", "10pt", "Arial, sans-serif", "AT&T;", "&nbsp;", "&#xZZ;", "&copy;", "R&D; x", "&#38;", "&lt;"]
@@ -51,9 +51,20 @@ def gen_api_desc(rng, nasty_attrs):
             for n in c["nodes"]:
                 if n[0] == "T" and rng.random() < 0.5:
                     n[1] = " ".join(rng.choice(NASTY) for _ in range(rng.randint(1, 3)))
+                if n[0] == "S" and rng.random() < 0.3:
+                    # a span with an alignment / colour of its own (next to whatever layout it carries)
+                    n[2] = dict(n[2], **rng.choice([{"text-align": "center"}, {"text-align": "right", "color": "yellow"}, {"color": "#00ff00"}]))
             if rng.random() < 0.4:
                 c["style"] = {"class": rng.choice(["p", "b1", "cls"]), "color": rng.choice(["white", "#ff0000"]), "font-family": rng.choice(["Arial", "monospace"])}
     d["styles"] = rng.choice([{}, {"p": {"color": "white", "font-size": "10pt"}}, {"p": {"text-align": "center"}, "b1": {"italics": True, "font-family": "Arial"}, "cls": {"color": "#00ff00"}}])
+    if rng.random() < 0.15:
+        # class names that look like the ids the writers generate themselves
+        names = rng.sample(["bottom", "r0", "r1", "default"], 2)
+        d["styles"] = {names[0]: {"color": "white"}, names[1]: {"italics": True, "color": "red"}}
+        for L in d["langs"]:
+            for c in L["caps"]:
+                if rng.random() < 0.5:
+                    c["style"] = {"class": rng.choice(names)}
     if nasty_attrs:
         k = rng.random()
         if k < 0.35:
@@ -144,6 +155,8 @@ def explore(chk):
             sets.append(("read:scc-program", {"langs": [{"lang": "en-US", "caps": []}]}, pycaption.SCCReader().read(p["text"])))
         except Exception:
             pass
+    if chk.driver_ok:
+        region_id_correspondence(chk)
     for (src, d, cs) in sets:
         wname, W = rng.choice(WR)
         opts = {} if wname == "legacy" else dict(rng.choice(OPTS))
@@ -179,6 +192,37 @@ def explore(chk):
             why = "not well-formed XML: " + str(e)[:120]
         if why:
             chk.property_failure(dict(case, why=why), "%s writer output: %s" % (wname, re.sub(r"%r|\[.*\]|'[^']*'|\d+", "*", why.split(":")[0])))
+
+
+def region_id_correspondence(chk):
+    """the ids RegionCreator hands out (default region first, then one per distinct layout) against the model, for style
+    ids that look like region ids"""
+    from bs4 import BeautifulSoup
+    from pycaption.dfxp import base as dbase
+    rng = chk.rng
+    b = core.Batch()
+    jobs = []
+    pool = ["bottom", "bottom_", "bottom__", "r0", "r1", "r2", "r3", "r10", "r01", "default", "p", "R0", "r", "r-1"]
+    for _ in range(60 if chk.tier == "quick" else 1500):
+        taken = rng.sample(pool, rng.randint(0, 6))
+        n = rng.randint(0, 5)
+        jobs.append((taken, n, b.add("dfxp.regionids", core.enc_list(taken), str(n))))
+    out = b.run()
+    for taken, n, o in jobs:
+        langs = [{"lang": "en-US", "caps": [{"start": 1000000 * (k + 1), "end": 1000000 * (k + 1) + 500000, "nodes": [["T", "x"]],
+                                               "layout": {"origin": ["%d%%" % (5 * k + 5), "10%"]}} for k in range(n)] or
+                  [{"start": 1000000, "end": 1500000, "nodes": [["T", "x"]]}]}]
+        cs = setbuild.build({"langs": langs, "styles": {t: {"color": "red"} for t in taken}})
+        dfxp = BeautifulSoup(dbase.DFXP_BASE_MARKUP, "lxml-xml")
+        rc = dbase.RegionCreator(dfxp, cs)
+        rc.create_document_regions()
+        I = [r.get("xml:id") for r in dfxp.find_all("region")]
+        M = core.dec_list(out[o])
+        chk.case(key=("regionids", json.dumps([taken, n])), nontrivial=bool(taken)); chk.count("region_id_cases")
+        if I != M:
+            chk.correspondence_failure({"style_ids": taken, "layouts": n, "impl": I, "model": M}, "DFXP region ids: implementation and model differ")
+        if len(set(I) | set(taken)) != len(I) + len(set(taken)):
+            chk.property_failure({"style_ids": taken, "layouts": n, "region_ids": I}, "dfxp writer: a region id repeats another id of the document")
 
 
 def replay(path):
